@@ -353,10 +353,17 @@ def jaxtyped(fn=_sentinel, *, typechecker=_sentinel):
                     modify_annotation(fn.__annotations__["return"])
 
             signature = inspect.signature(fn)
+            wrapped_fn_holder = []  # Avoids introducing a reference cycle.
 
             @ft.wraps(fn)
             def wrapped_fn(*args, **kwargs):  # pyright: ignore
                 __tracebackhide__ = True
+                if (
+                    config.jaxtyping_disable
+                    or getattr(fn, "__no_type_check__", False)
+                    or getattr(wrapped_fn_holder[0](), "__no_type_check__", False)
+                ):
+                    return fn(*args, **kwargs)
                 bound = signature.bind(*args, **kwargs)
                 bound.apply_defaults()
                 memos = push_shape_memo(bound.arguments)
@@ -376,6 +383,8 @@ def jaxtyped(fn=_sentinel, *, typechecker=_sentinel):
                     raise
                 finally:
                     pop_shape_memo()
+
+            wrapped_fn_holder.append(weakref.ref(wrapped_fn))
 
         else:
             # New-style
